@@ -155,11 +155,12 @@ T.update({
           "objects; TSATrace.tla keeps the per-object map and checks every read.",
           "TLC trace validation against a per-instance map"),
   "C30": ("model_checking", "4 C30",
-          "Singleton.tla is model-checked (one instance, same object for all, no deadlock); on the real SingletonDecorator all interleavings of two concurrent "
+          "Singleton.tla is model-checked (one instance, same object for all, no deadlock) and, for any number of threads, the same two properties are "
+          "proved with TLAPS from an inductive invariant (SingletonProof.tla, re-checked by tlapm in every run); on the real SingletonDecorator all interleavings of two concurrent "
           "first requests (and pre-emption-bounded ones of three) are enumerated for the five declared singleton classes and validated by TLC; "
           "for 'the life of the process', histories of fabric start/stop/clear/subscribe/publish calls are validated by FabricTrace.tla, whose clause "
           "NotSingle demands that every singleton still yields the object it yielded at first.",
-          "TLC model checking of Singleton.tla + exhaustive schedule enumeration of the real code validated by TLC + TLC trace validation (FabricTrace.tla)"),
+          "TLC model checking of Singleton.tla + TLAPS proof for any number of threads + exhaustive schedule enumeration of the real code validated by TLC + TLC trace validation (FabricTrace.tla)"),
   "C32": ("other", "4 C32, 7",
           "TraceText.tla defines Norm and the elementary edits and shows by evaluation over all short texts that equal Norm coincides with 'differ only in "
           "timestamps, blank lines, surrounding whitespace'; TLC exports the universe, each text is rendered with real trace() bodies (whitespace as spaces, tabs and mixes) and fed to the real stripped().",
